@@ -333,6 +333,13 @@ class WARCRecorder(object):
 
         journal_filename = self._warc_filename + '-wpullinc'
 
+        if os.path.exists(journal_filename):
+            # An earlier append failed and could not be rolled back. The
+            # journal names the length to cut back to; appending now would
+            # overwrite it.
+            raise OSError(
+                'WARC file {} is incomplete.'.format(journal_filename))
+
         try:
             with open(journal_filename, 'w') as file:
                 file.write('wpull-journal-version:1\n')
